@@ -59,10 +59,17 @@ def knownReaders : List (String × String) :=
   [ ("Births", "get_births"), ("NCD", "init_post"), ("NCD", "step"), ("sir_vaccine", "administer"),
     ("Syphilis", "set_congenital"), ("Syphilis", "set_latent_long_prognoses"), ("Syphilis", "set_latent_temp_prognoses"),
     ("Syphilis", "set_prognoses"), ("Syphilis", "set_secondary_prognoses"), ("RandomNet", "add_pairs"),
-    ("", "set_seed") ]   -- set_seed draws a seed for numba only when called with seed=None (not from Sim.init)
+    ("", "set_seed"),    -- set_seed draws a seed for numba only when called with seed=None (not from Sim.init)
+    ("Tx", "administer"),    -- iterates a set of agent uids (integers: their set order does not depend on the hash seed)
+    ("Loop", "__repr__") ]   -- display only: a set of array lengths (integers)
 
 theorem C01_readers_are_known :
     ∀ r ∈ Gen.globalReads, (r.2.1, r.2.2.1) ∈ knownReaders := by decide
+
+/-- No simulation class keeps mutable state at class level or in a default argument: such an object is created once
+    per process and shared by every simulation that is created or run in it (a hidden channel between "other
+    simulations created or run before or in between" and this one). -/
+theorem C01_no_shared_mutable_state : Gen.sharedMutables = [] := by decide
 
 /-- the only writes to the global generators are the deliberate reseeding in `set_seed` -/
 theorem C01_writes_are_reseeding :
